@@ -3,6 +3,7 @@ CONSTANTS
   P = 6
   Offsets = {0, 3}
   MaxSpans = 2
+  MinSpans = 1
   MaxCopy = 1
   Filters = {"none"}
 CONSTRAINT CopyBound
